@@ -150,9 +150,9 @@ out_st = st.tuples(st.just("out"), st.sampled_from(["after", "before"]), st.inte
 
 
 @st.composite
-def case_st(draw):
+def case_st(draw, max_ops=30):
     ops = [draw(push_st)]
-    n = draw(st.integers(3, 30))
+    n = draw(st.integers(3, max_ops))
     for _ in range(n):
         k = draw(st.integers(0, 9))
         ops.append(draw(push_st if k < 4 else (pull_st if k < 9 else out_st)))
@@ -160,4 +160,4 @@ def case_st(draw):
 
 
 def parts():
-    return [Part("histories", check, strategy=case_st(), budget={"quick": 2400, "thorough": 80000})]
+    return [Part("histories", check, strategy=case_st(), strategy_thorough=case_st(max_ops=80), budget={"quick": 2400, "thorough": 80000})]
